@@ -131,3 +131,27 @@ PROPS["C03"] = dict(
         assumptions=_E1_ASSUME,
     ),
 )
+
+PROPS["C08"] = dict(
+    level="model_checking",
+    budget_s=dict(quick=150, thorough=1200),
+    parts=[dict(name="catalogue", bin="C08", flavour="plain")],
+    manifest=dict(
+        engine="E1", design_ref="5 / C08",
+        technique="explicit-state BFS builds the reachable-state corpus on the real library; in every state every entry of a rejection catalogue is attempted; oracle: observation before == after (same session and after reopen)",
+        text="The corpus of file states is generated by breadth-first exploration of the entity alphabet (empty seed to depth 3 quick / 4 thorough, "
+             "plus two rich seeds and, in thorough, their successors). In each state each of ~150 catalogue calls (duplicate / empty / slash names, empty "
+             "types, unknown or foreign link targets, mismatching shapes and element types, unsorted ticks, non-SI units, non-positive intervals, "
+             "unsupported element types, out-of-range indices and offsets) is attempted on the first entity of the addressed kind; whenever the call throws, "
+             "the complete observation through fresh handles must equal the one taken before the call, and again after close+reopen.",
+        note="A call that unexpectedly succeeds is not a C08 matter and is only counted. The catalogue is hand-written (DESIGN 3.11). Empty HDF5 container "
+             "groups left behind are not observable through the API and are ignored."),
+    evidence=dict(
+        keys=dict(states=("distinct", "states"), transitions=("count", "calls"), traces_validated_against_impl=("count", "calls_rejected"),
+                  evaluations=("count", "calls"), distinct_nontrivial=("distinct", "rejected_in_state")),
+        rule="states = corpus states (distinct canonical observation + session op multiset); a transition = one catalogue call attempted in one state; "
+             "distinct_nontrivial = distinct (catalogue entry, state) pairs in which the call was actually rejected with an exception.",
+        bound=dict(quick="corpus: empty seed level-1 alphabet depth 3; seeds R1, R2 and all their level-2 successors; full catalogue in every state", thorough="empty seed depth 4; R1, R2 and all their level-2 successors"),
+        assumptions=_E1_ASSUME,
+    ),
+)
